@@ -463,7 +463,18 @@ fn run_tree(fields: &[&str]) -> String {
     let h = to_rcdom(&tree);
     let (r, out) = run_ser(&SerializableHandle::from(h.clone()), &scope, scripting, cmp);
     let (r2, out2) = run_ser(&tree, &scope, scripting, cmp);
-    let alt = if r == r2 && out == out2 { "ok" } else { "bad" };
+    let mut alt = if r == r2 && out == out2 { "ok" } else { "bad" };
+    // `SerializeOpts::default()` is documented as scripting on, children only, no synthetic parent
+    if alt == "ok" && r == "ok" && scripting && !cmp && matches!(scope, TraversalScope::ChildrenOnly(None)) {
+        let mut dbuf: Vec<u8> = vec![];
+        let ok = catch_unwind(AssertUnwindSafe(|| {
+            serialize(&mut dbuf, &SerializableHandle::from(h.clone()), Default::default()).is_ok()
+        }))
+        .unwrap_or(false);
+        if !ok || dbuf != out {
+            alt = "bad";
+        }
+    }
     let mut bad = vec![];
     inner_outer(&tree, &h, "r", scripting, cmp, &mut bad);
     let rt = round_trip(&tree, &h, scripting);
